@@ -178,6 +178,10 @@ func (p *parser) parseInt32Lit() int32 {
 
 	if p.tok == token.CHAR {
 		p.acceptToken(token.CHAR)
+		// an unterminated rune literal at the end of a line or of the file is just "'"
+		if len(lit) < 3 || lit[len(lit)-1] != '\'' {
+			p.errorf(pos, "expect int32, got %q", lit)
+		}
 		return int32(lit[1]) // '?'
 	}
 
